@@ -168,8 +168,6 @@ class IndexModel:
         O, Lh = Lin.atom("own"), Lin.atom("L")
 
         def goal(pr):
-            if pr.prove_eq(v, O + 1) or pr.prove_eq(v, O + 1 - Lh):
-                return True
             p1 = pr.clone()
             p1.assume_lt(O + 1, Lh)
             p2 = pr.clone()
